@@ -3,6 +3,7 @@ import TF.Proofs.BFieldModel
 import TF.Proofs.BFieldZMod
 import TF.Proofs.XField
 import TF.Proofs.Shah
+import TF.Proofs.XFieldInv
 /-!
 # C01 — base and extension field arithmetic is exact and canonical
 
@@ -179,5 +180,52 @@ theorem xfe_inverse_exists_unique (x : TF.Spec.X3) (hx : TF.Shah.canon3 x) (hnz 
   ⟨TF.Shah.spec_inverse_exists x hx hnz, fun y₁ y₂ h₁ h₂ e₁ e₂ => TF.Shah.spec_inverse_unique x y₁ y₂ hx hnz h₁ h₂ e₁ e₂⟩
 example : TF.Shah.canon3 (1, 2, 3) ∧ ((1, 2, 3) : TF.Spec.X3) ≠ TF.Spec.xzero := by
   refine ⟨⟨by decide, by decide, by decide⟩, by decide⟩
+
+/-- **`XFieldElement::inverse` returns the unique inverse** — on triples of canonical values.  The model
+    `TF.Model.XFInv.xfeInverse` follows the Rust code: `[c0,c1,c2]` as a polynomial, `Polynomial::xgcd` with the shah
+    polynomial `X³ − X + 1` (the C09 model), the Bézout coefficient reduced by `naive_divide` modulo the shah polynomial,
+    the remainder zero-padded to three coefficients.  For every non-zero input it does not panic, the result is
+    canonical, it is a two-sided inverse for the specification product, and it is the only one; for zero it panics. -/
+theorem xfe_inverse_exact (x : TF.Spec.X3) (hx : TF.Shah.canon3 x) :
+    (x = TF.Spec.xzero → TF.Model.XFInv.xfeInverse x = none) ∧
+    (x ≠ TF.Spec.xzero → ∃ r, TF.Model.XFInv.xfeInverse x = some r ∧ TF.Shah.canon3 r ∧
+        TF.Spec.xmul r x = TF.Spec.xone ∧ TF.Spec.xmul x r = TF.Spec.xone ∧
+        ∀ y, TF.Shah.canon3 y → TF.Spec.xmul x y = TF.Spec.xone → y = r) := by
+  refine ⟨fun h => (TF.XFInvProofs.xfeInverse_none_iff x hx).2 h, fun hnz => ?_⟩
+  obtain ⟨r, h1, h2, h3, h4⟩ := TF.XFInvProofs.xfeInverse_spec x hx hnz
+  exact ⟨r, h1, h2, h3, h4, fun y hy e => TF.Shah.spec_inverse_unique x y r hx hnz hy h2 e h4⟩
+example : TF.Shah.canon3 (1, 2, 3) ∧ ((1, 2, 3) : TF.Spec.X3) ≠ TF.Spec.xzero ∧
+    (TF.Model.XFInv.xfeInverse (1, 2, 3)).map (fun r => TF.Spec.xmul r (1, 2, 3)) = some TF.Spec.xone := by
+  refine ⟨⟨by decide, by decide, by decide⟩, by decide, by decide +kernel⟩
+
+/-- the same on **raw Montgomery words** (`TF.Model.XF.inverse` = `bfe_value` ∘ model ∘ `bfe_new`, what the driver
+    runs against the crate), for the word-level product `XF.mul` (the three result expressions of the Rust `Mul`):
+    panics exactly on zero; otherwise canonical words `r` with `r·x = x·r = 1`, unique -/
+theorem xfe_inverse_words_exact (x : XF.X3) (hx : TF.XFp.canon3 x) :
+    (XF.inverse x = none ↔ x = XF.zero) ∧
+    (x ≠ XF.zero → ∃ r, XF.inverse x = some r ∧ TF.XFp.canon3 r ∧ XF.mul r x = XF.one ∧ XF.mul x r = XF.one ∧
+        ∀ y, TF.XFp.canon3 y → XF.mul y x = XF.one → y = r) :=
+  ⟨TF.XFInvProofs.inverse_none_iff x hx, TF.XFInvProofs.inverse_spec x hx⟩
+example : TF.XFp.canon3 XF.one ∧ XF.one ≠ XF.zero := ⟨TF.XFInvProofs.canon3_one, by decide⟩
+
+/-- `inverse_or_zero` on the extension field: zero for zero, `inverse()` otherwise; never panics -/
+theorem xfe_inverse_or_zero_exact (x : XF.X3) (hx : TF.XFp.canon3 x) :
+    (x = XF.zero → XF.inverseOrZero x = some XF.zero) ∧
+    (x ≠ XF.zero → ∃ r, XF.inverseOrZero x = some r ∧ XF.inverse x = some r ∧ TF.XFp.canon3 r ∧
+        XF.mul r x = XF.one) := by
+  refine ⟨(TF.XFInvProofs.inverseOrZero_spec x hx).1, fun hnz => ?_⟩
+  obtain ⟨r, h1, h2⟩ := (TF.XFInvProofs.inverseOrZero_spec x hx).2 hnz
+  obtain ⟨r', h3, h4, h5, _⟩ := TF.XFInvProofs.inverse_spec x hx hnz
+  obtain rfl : r' = r := by rw [h2] at h3; exact (Option.some.inj h3).symm
+  exact ⟨r', h1, h2, h4, h5⟩
+example : TF.XFp.canon3 XF.zero ∧ XF.inverseOrZero XF.zero = some XF.zero := ⟨TF.XFInvProofs.canon3_zero, rfl⟩
+
+/-- `Div` on the extension field: `a / b = a · b⁻¹` (canonical) and `(a / b) · b = a`; panics exactly for `b = 0` -/
+theorem xfe_div_exact (a b : XF.X3) (ha : TF.XFp.canon3 a) (hb : TF.XFp.canon3 b) :
+    (b = XF.zero → XF.div a b = none) ∧
+    (b ≠ XF.zero → ∃ bi r, XF.inverse b = some bi ∧ XF.div a b = some r ∧ r = XF.mul a bi ∧ TF.XFp.canon3 r ∧
+        XF.mul r b = a) :=
+  TF.XFInvProofs.div_spec a b ha hb
+example : TF.XFp.canon3 XF.one ∧ XF.one ≠ XF.zero := ⟨TF.XFInvProofs.canon3_one, by decide⟩
 
 end TF.C01
